@@ -78,8 +78,6 @@ Lemma fields_explicit m0 m1 m2 m3 m4 m5 m6 m7 m8 m9 m10 m11 m12 m13 rest :
   drop c_meta b = rest /\ drop L_meta b = rest /\ len b = 14 + len rest.
 Proof. repeat split; try reflexivity. rewrite !len_cons. lia. Qed.
 
-Definition info_of (b : bytes) : bytes := take (declared b) (drop L_meta b).
-
 Lemma wf_explode m0 m1 m2 m3 m4 m5 m6 m7 m8 m9 m10 m11 m12 m13 rest :
   wf (m0 :: m1 :: m2 :: m3 :: m4 :: m5 :: m6 :: m7 :: m8 :: m9 :: m10 :: m11 :: m12 :: m13 :: rest) ->
   m0 < 256 /\ m1 < 256 /\ m2 < 256 /\ m3 < 256 /\ m4 < 256 /\ m5 < 256 /\ m6 < 256 /\ m7 < 256 /\
@@ -229,13 +227,6 @@ Proof.
 Qed.
 
 (* ---------- C10 ---------- *)
-(* what a frame must look like to be accepted *)
-Definition accepts (b : bytes) : Prop :=
-  L_meta + declared b <= len b /\ field_at b 4 2 = L_magic16 /\ 2 <= declared b <= L_max /\
-  exists pid nt rest secs,
-    info_of b = pid :: nt :: rest /\ In pid L_pids /\ nt <= declared b - 2 /\
-    secs_ok secs /\ drop nt rest = enc_secs secs.
-
 Lemma declared_short b : len b < 14 -> declared b = 0.
 Proof. intros H. unfold declared, L_meta. destruct (N.ltb_spec (len b) 14); [reflexivity|lia]. Qed.
 
